@@ -4,6 +4,8 @@ import (
 	"testing"
 
 	"pgregory.net/rapid"
+
+	"package-operator.run/verifharness/engine"
 )
 
 func c07Extra(t *rapid.T, sc *Scenario) {
@@ -67,6 +69,60 @@ func TestC07(t *testing.T) {
 	})
 }
 
+// genC08Handover: a directed family around the handover itself: template T1 is T0 with other content variants and freshly drawn
+// phase classes (so shared objects sit in local phases on one side and delegated phases on the other), the same probes;
+// rollout of T0 without (or with late) readiness, edit to T1, then the deployment controller interleaved with few passes of the
+// revisions' own controllers, so archival decisions are taken while the incoming revision has adopted little or nothing.
+func genC08Handover(t *rapid.T, opts SetGenOpts) *Scenario {
+	sc := &Scenario{Prop: "C08"}
+	t0 := GenSet(t, opts)
+	t1 := t0
+	t1.Phases = nil
+	for _, ph := range t0.Phases {
+		p2 := ph
+		p2.Class = rapid.SampledFrom([]string{"", engine.ClassDefault}).Draw(t, "class1")
+		p2.Objs = nil
+		for _, o := range ph.Objs {
+			if rapid.IntRange(0, 5).Draw(t, "drop") == 0 {
+				continue
+			}
+			o.Variant++
+			p2.Objs = append(p2.Objs, o)
+		}
+		t1.Phases = append(t1.Phases, p2)
+	}
+	sc.Tmpls = []SetSpec{t0, t1}
+	sc.Steps = append(sc.Steps, Step{Op: "createDeploy", I: 0, J: rapid.SampledFrom([]int{0, 0, 1, 2, 11}).Draw(t, "limit")})
+	all := []string{engine.CtrlObjectDeployment, engine.CtrlObjectSet, engine.CtrlObjectSetPhase}
+	if rapid.Bool().Draw(t, "settle0") {
+		sc.Steps = append(sc.Steps, Step{Op: "quiesce"})
+	} else {
+		for i := rapid.IntRange(2, 8).Draw(t, "roll0"); i > 0; i-- {
+			sc.Steps = append(sc.Steps, GenReconcile(t, all))
+		}
+	}
+	if rapid.IntRange(0, 2).Draw(t, "ready0") == 0 {
+		for w := 0; w < 3; w++ {
+			sc.Steps = append(sc.Steps, Step{Op: "widget", I: w, J: 1}, Step{Op: "tpReady", I: w, On: true})
+		}
+		sc.Steps = append(sc.Steps, Step{Op: "quiesce"})
+	}
+	sc.Steps = append(sc.Steps, Step{Op: "editDeploy", I: 1})
+	few := []string{engine.CtrlObjectDeployment, engine.CtrlObjectDeployment, engine.CtrlObjectDeployment, engine.CtrlObjectSet, engine.CtrlObjectSet, engine.CtrlObjectSetPhase}
+	for i := rapid.IntRange(3, 16).Draw(t, "handover"); i > 0; i-- {
+		switch rapid.IntRange(0, 9).Draw(t, "hk") {
+		case 0:
+			sc.Steps = append(sc.Steps, Step{Op: "widget", I: rapid.IntRange(0, 2).Draw(t, "w"), J: rapid.IntRange(0, len(WidgetStates)-1).Draw(t, "state")})
+		case 1:
+			sc.Steps = append(sc.Steps, Step{Op: "tpReady", I: rapid.IntRange(0, 3).Draw(t, "cm"), On: rapid.Bool().Draw(t, "on")})
+		default:
+			sc.Steps = append(sc.Steps, GenReconcile(t, few))
+		}
+	}
+	sc.Steps = append(sc.Steps, Step{Op: "quiesce"})
+	return sc
+}
+
 func TestC08(t *testing.T) {
 	st := NewStats("C08", "engine", "scenario = one ObjectDeployment over 2-4 overlapping templates with probe-driven availability changes, all revisionHistoryLimit values, pause toggles on revisions, arbitrary interleaving of the deployment controller with the revisions' reconciles; non-trivial = an archival or prune happened")
 	opts := SetGenOpts{AllowClass: true, PoolSize: 4, MaxObjs: 3, MaxPhases: 2}
@@ -77,8 +133,15 @@ func TestC08(t *testing.T) {
 	CheckOrReplay(t, st, func(data []byte) (any, error) {
 		return ReplayScenario(data, func(sc *Scenario) *Runner { r, _ := mk(sc); return r })
 	}, func(rt *rapid.T) {
-		sc := genDeployWorld(rt, "C08", opts, c09Extra)
+		var sc *Scenario
+		family := "family-general"
+		if rapid.IntRange(0, 3).Draw(rt, "family") == 0 {
+			sc, family = genC08Handover(rt, opts), "family-handover"
+		} else {
+			sc = genDeployWorld(rt, "C08", opts, c09Extra)
+		}
 		r, m := mk(sc)
+		r.Labels[family] = true
 		err := r.Run()
 		st.Count("passes", int64(len(r.W.Passes)))
 		st.Count("archivals", int64(m.Archivals))
